@@ -317,9 +317,8 @@ class RegionLifter:
         if isinstance(sl, ast.Slice):
             lo = self.ev(sl.lower, env, F) if sl.lower is not None else None
             hi = self.ev(sl.upper, env, F) if sl.upper is not None else None
-            if sl.step is not None:
-                raise Unsupported("slice step")
-            return slice(self.as_int(lo), self.as_int(hi))
+            st = self.as_int(self.ev(sl.step, env, F)) if sl.step is not None else None
+            return slice(self.as_int(lo), self.as_int(hi), st)
         return self.ev(sl, env, F)
 
     def as_int(self, v):
@@ -537,6 +536,11 @@ class RegionLifter:
             if isinstance(v, (bool, str)) or v is None or isinstance(v, int):
                 return v
             if isinstance(v, float):
+                if 0 < abs(v) < 1e-9:
+                    # numerical regulariser (1e-12, ...): a named infinitesimal, so that rules
+                    # can compare terms up to it
+                    self.rg.values["TINY"] = abs(v)
+                    return sym("TINY") if v > 0 else -sym("TINY")
                 return const(Fraction(str(v)))
             raise Unsupported("constant")
         if isinstance(node, ast.Name):
@@ -755,6 +759,25 @@ class RegionLifter:
                     return Mat(Vec(r) for r in a)
                 return Vec(a)
             raise Unsupported("np.array argument")
+        if name in ("np.asarray", "np.ascontiguousarray") and isinstance(args[0], (list, tuple)):
+            return Vec(args[0])
+        if name == "np.arange":
+            return Vec(range(*[self.as_int(a) for a in args]))
+        if name == "np.argsort":
+            xs = list(args[0])
+            order = []
+            for k in range(len(xs)):          # stable insertion sort on decided comparisons
+                pos = len(order)
+                while pos > 0 and self.rg.compare(xs[k], "<", xs[order[pos - 1]]):
+                    pos -= 1
+                order.insert(pos, k)
+            return Vec(order)
+        if name == "np.cumsum":
+            out, t = Vec(), const(0)
+            for x in args[0]:
+                t = t + R(x)
+                out.append(t)
+            return out
         if name in ("np.dot",):
             return self.dot(args[0], args[1])
         if name == "np.where" and len(args) == 3:
@@ -768,12 +791,20 @@ class RegionLifter:
             raise Unsupported("isinf")
         if name in ("np.cos", "np.arccos", "np.sin", "np.cbrt", "np.arctan"):
             raise Unsupported(f"transcendental {name}")
-        if name == "np.argsort" or name == "np.sort" or name == "np.cumsum" or name == "np.flip":
+        if name in ("np.sort", "np.flip", "np.unique"):
             raise Unsupported(name)
+        if name == "compiled_clone":
+            return args[0]
         r = self.prog.resolve(F.module, name)
-        from .model import FuncInfo
+        from .model import FuncInfo, ClassInfo
         if isinstance(r, FuncInfo):
             return self.call_function(r, args, kw)
+        if isinstance(r, ClassInfo):
+            o = Obj(r, {})
+            init = r.find_method("__init__")
+            if init is not None:
+                self.call_function(init, args, kw, self_obj=o)
+            return o
         raise Unsupported(f"call {name}")
 
     def any(self, v):
